@@ -642,7 +642,7 @@ func main() {
 			}
 			b := 1
 			if tier == "thorough" {
-				b = 2
+				b = 3
 			}
 			if sc.Mode == "mitm-tls" {
 				b--
@@ -724,7 +724,7 @@ func main() {
 	rep.Coverage["traces_validated_against_impl"] = rep.Counter("executions")
 	rep.Coverage["bound_completed"] = minBound
 	rep.Coverage["exhaustive"] = rep.Incomplete == ""
-	rep.Coverage["bounds"] = fmt.Sprintf("%d scenarios: plain mode with all behaviour sequences (7 behaviours) up to length %d, blind CONNECT x 6 behaviours, MITM with plaintext / TLS inside x CONNECT behaviours x inner behaviours, optional second concurrent connection; every schedule with <= %d deviations (one less for TLS scenarios)", len(scen), map[string]int{"quick": 2, "thorough": 3}[tier], map[string]int{"quick": 1, "thorough": 2}[tier])
+	rep.Coverage["bounds"] = fmt.Sprintf("%d scenarios: plain mode with all behaviour sequences (7 behaviours) up to length %d, blind CONNECT x 6 behaviours, MITM with plaintext / TLS inside x CONNECT behaviours x inner behaviours, optional second concurrent connection; every schedule with <= %d deviations (one less for TLS scenarios)", len(scen), map[string]int{"quick": 2, "thorough": 3}[tier], map[string]int{"quick": 1, "thorough": 3}[tier])
 	rep.Coverage["explanation"] = "each execution runs the real proxy.go/context.go over simnet under the gosim scheduler with recording modifiers; hook martian.VerifLiveContexts (add-only, build tag verif) counts live request-to-context associations"
 	rep.Assumptions = []string{"round trips go through a synchronous harness RoundTripper", "TLS inside the tunnel uses crypto/tls unmodified on simnet connections"}
 	rep.Finish()
